@@ -113,8 +113,10 @@ func (sto *unionStorage) StatBlobs(ctx context.Context, blobs []blob.Ref, f func
 		return err
 	}
 	// need to dedup the blobs
+	ctx, cancel := context.WithCancel(ctx)
+	defer cancel() // unblocks senders still running when we return early
 	maybeDup := make(chan blob.SizedRef)
-	errCh := make(chan error, 1)
+	errCh := make(chan error, len(sto.subsets))
 	var wg sync.WaitGroup
 	var any bool
 	for _, s := range sto.subsets {
@@ -122,8 +124,12 @@ func (sto *unionStorage) StatBlobs(ctx context.Context, blobs []blob.Ref, f func
 			any = true
 			wg.Go(func() {
 				if err := bs.StatBlobs(ctx, blobs, func(sr blob.SizedRef) error {
-					maybeDup <- sr
-					return nil
+					select {
+					case maybeDup <- sr:
+						return nil
+					case <-ctx.Done():
+						return ctx.Err()
+					}
 				}); err != nil {
 					errCh <- err
 				}
@@ -134,10 +140,10 @@ func (sto *unionStorage) StatBlobs(ctx context.Context, blobs []blob.Ref, f func
 		return errors.New("union: No BlobStatter reader configured")
 	}
 
-	var closeChanOnce sync.Once
+	// maybeDup is closed only here, once every sender has returned.
 	go func() {
 		wg.Wait()
-		closeChanOnce.Do(func() { close(maybeDup) })
+		close(maybeDup)
 	}()
 
 	seen := make(map[blob.Ref]struct{}, len(blobs))
@@ -146,11 +152,16 @@ func (sto *unionStorage) StatBlobs(ctx context.Context, blobs []blob.Ref, f func
 		case <-ctx.Done():
 			return ctx.Err()
 		case err := <-errCh:
-			closeChanOnce.Do(func() { close(maybeDup) })
 			return err
 		case sr, ok := <-maybeDup:
 			if !ok {
-				return nil
+				// All senders are done; don't lose an error one of them reported.
+				select {
+				case err := <-errCh:
+					return err
+				default:
+					return nil
+				}
 			}
 			if _, ok = seen[sr.Ref]; !ok {
 				seen[sr.Ref] = struct{}{}
